@@ -47,11 +47,8 @@ pub fn workload_cfg(sync_always: bool) -> BoxedStrategy<StoreCfg> {
         .boxed()
 }
 
-/// Workloads WITHOUT deletes under arbitrary merge thresholds (merges select arbitrary subsets of
-/// files). Without tombstones the known finding D2 cannot occur, so partial merges can be
-/// crash-tested here too.
+/// Workloads under arbitrary merge thresholds (merges select arbitrary subsets of files).
 pub fn workload_partial(tier: Tier, sync_always: bool, w: OpWeights, min_ops: usize, max_quick: usize, max_thorough: usize) -> BoxedStrategy<Hist> {
-    let w = OpWeights { del: 0, ..w };
     (
         workload(tier, sync_always, w, min_ops, max_quick, max_thorough),
         crate::gen::dead_bytes_strategy(),
@@ -161,15 +158,7 @@ pub fn check_crash_dir(
         ..MemDir::default()
     }
     .materialise(dir);
-    // under arbitrary merge thresholds the post ops must stay delete-free as well (a delete
-    // followed by a partial merge and a reopen is the known finding D2 of C05)
-    let post_owned: Vec<Op>;
-    let post: &[Op] = if case_hist.cfg.small_file != u64::MAX {
-        post_owned = post.iter().filter(|o| !matches!(o, Op::Del(_))).cloned().collect();
-        &post_owned
-    } else {
-        post
-    };
+
     let a = &models[acked];
     let b = inflight.map(|i| &models[i + 1]);
     let mut ap = OpApplier::new(case_hist, dir);
@@ -310,7 +299,7 @@ fn exec(c: &CrashCase, env: &Env) -> Outcome {
     let _ = std::fs::remove_dir_all(&crash_dir);
     let _ = std::fs::remove_dir_all(env.scratch.join("store"));
     if c.hist.cfg.small_file != u64::MAX {
-        out.labels.push("delete-free-workload-with-arbitrary-merge-thresholds".into());
+        out.labels.push("workload-with-arbitrary-merge-thresholds".into());
     }
     out.evals = evals;
     out.count("crash-points", evals);
@@ -334,7 +323,7 @@ pub fn prop() -> Prop<CrashCase> {
         rule: "Workloads (3-14 ops quick, up to 40 thorough, over set/del/merge/reopen; small max_file_size so rollovers and multi-file merges occur; a share of entries above the 8 KiB write buffer) are generated by proptest and run once under the LD_PRELOAD recorder. For each workload EVERY crash point is enumerated: for each k in 0..=N the directory holding exactly the first k recorded mutating calls (create, write with its bytes, unlink) is materialised and recovered; the recovered reads must equal the model after the acknowledged ops, or that plus the single op in flight, consistently over all keys; recovery is repeated (crash during/after recovery), then generated post ops and another reopen must still agree with the model. evaluations = crash states recovered. Non-trivial crash point: strictly inside a merge, a rollover or a multi-call append (calls k-1 and k belong to the same op); distinct = (workload hash, k).",
         assumptions: &[
             "a killed process leaves exactly the effects of a prefix of its system calls (the property's own kill model); no partial single call",
-            "three quarters of the workloads use thresholds that make every non-empty file eligible; the rest are delete-free workloads under arbitrary thresholds (without tombstones the known finding D2 of C05 cannot occur)",
+            "three quarters of the workloads use thresholds that make every non-empty file eligible, the rest arbitrary thresholds (merges of arbitrary subsets of files)",
             "workload is single threaded with merge policy never, so the recorded call order is the program order",
         ],
         needs_shim: true,
